@@ -239,6 +239,7 @@ func runC08(r *rt.Runner) {
 			if rng.IntN(25) == 0 {
 				o.maxGlyphs = 250
 			}
+			o.noNotdef = rng.IntN(3) == 0 // subset fonts built for embedding have no .notdef entry; the file must not gain one
 			f := genFont(rng, o)
 			if rng.IntN(40) == 0 {
 				// a large font: the PFB binary segment exceeds 64 KiB
